@@ -24,9 +24,9 @@ def make_params(sc, **kw):
     return Params(scaling=s, scaling_type=ScalingType.Custom, **kw)
 
 
-def make_transformation(spec, sc, fmt="coo", **kw):
+def make_transformation(spec, sc, fmt="coo", policy="fresh", **kw):
     from pygradflow.transform import Transformation
-    prob = QuadProblem(spec, fmt=fmt, policy="fresh", **kw)
+    prob = QuadProblem(spec, fmt=fmt, policy=policy, **kw)
     return prob, Transformation(prob, make_params(sc))
 
 
@@ -87,15 +87,24 @@ class Transform(Unit):
             dt = g.vec(len(xt), kmax=8, jmax=1)
             cases.append({"spec": spec.to_json(), "sc": sc, "x": xt, "y": yt, "x0": x0, "y0": y0, "d": dt,
                           "fmt": g.rng.choice(["coo", "csr", "csc"]),
-                          "explicit_zeros": g.rng.random() < 0.3, "dup": g.rng.random() < 0.3})
+                          "explicit_zeros": g.rng.random() < 0.3, "dup": g.rng.random() < 0.3,
+                          "policy": g.rng.choice(["fresh", "memo", "memo"]), "twice": g.rng.random() < 0.6})
         return cases
 
     def impl(self, case):
         spec = Spec.from_json(case["spec"])
-        prob, tr = make_transformation(spec, case["sc"], case["fmt"], explicit_zeros=case["explicit_zeros"], dup=case["dup"])
+        prob, tr = make_transformation(spec, case["sc"], case["fmt"], policy=case.get("policy", "fresh"),
+                                       explicit_zeros=case["explicit_zeros"], dup=case["dup"])
         T = tr.trans_problem
         x = np.array(case["x"])
         y = np.array(case["y"])
+        if case.get("twice"):
+            # the functions of the internal problem must not depend on what was evaluated before (a problem
+            # that memoises its results per point hands out the same objects again)
+            T.obj(x), T.obj_grad(x), T.lag_hess(x, y)
+            if spec.m > 0:
+                T.cons(x), T.cons_jac(x)
+            tr.transform_sol(np.array(case["x0"]), np.array(case["y0"]))
         (tx, ty) = tr.transform_sol(np.array(case["x0"]), np.array(case["y0"]))
         (rx, ry, rd) = tr.restore_sol(x, y, np.array(case["d"]))
         return {"obj": float(T.obj(x)), "grad": fl(T.obj_grad(x)),
@@ -244,6 +253,8 @@ class IterateUnit(Unit):
         problem, params, it = make_iterate(case)
         a = it.active_set
         rho = case["rho"]
+        # ask with another penalty first: what is reported must not depend on earlier queries
+        it.aug_lag(rho + 1.0), it.aug_lag_deriv_x(rho + 1.0), it.aug_lag_deriv_xx(rho + 1.0), it.aug_lag_deriv_xx(0.0)
         return {"obj": float(it.obj), "bdual": fl(it.bounds_dual), "stat": float(it.stat_res),
                 "bviol": float(it.bound_violation), "cviol": float(it.cons_violation), "total": float(it.total_res),
                 "linf": bool(it.locally_infeasible(case["ftol"], case["itol"])),
@@ -319,6 +330,24 @@ class IterateUnit(Unit):
         H = problem.lag_hess(x, y + rho * c).toarray() + rho * J.T.dot(J)
         if H.tolist() != r["alxx"]:
             bad.append("aug_lag_deriv_xx")
+        # C02: the tests behind LocallyInfeasible / Unbounded
+        feas = (cv <= case["ftol"]) and (bv <= case["ftol"])
+        if feas != r["feas"]:
+            bad.append("is_feasible")
+        if cv <= case["ftol"]:
+            linf = False
+        else:
+            q = J.T.dot(c)
+            for j in range(n):
+                lo = abs(x[j] - lb[j]) <= atol
+                up = abs(ub[j] - x[j]) <= atol
+                if lo and not up:
+                    q[j] = min(q[j], 0.0)
+                elif up and not lo:
+                    q[j] = max(q[j], 0.0)
+            linf = bool((np.max(np.abs(q)) if n else 0.0) <= case["itol"])
+        if linf != r["linf"]:
+            bad.append("locally_infeasible")
         if bad:
             return "Iterate quantities differ from the dense reference of their definitions: " + ",".join(bad)
         return None
